@@ -6,9 +6,10 @@ CONSTANTS
   CMIN = 2
   BO = 3
   IVALS <- IvOne
-  ASIS = {}
-  CIDS = {0}
-  ENV = {"flip", "stop"}
-INVARIANT InvFixed
+  ASIS = {"connid0"}
+  CIDS = {0, 7}
+  ENV = {"expire", "stop"}
+INVARIANT NoViolation
+INVARIANT NoParked
 PROPERTY Live
 CHECK_DEADLOCK FALSE
